@@ -617,8 +617,14 @@ def k8(ctx):
         if f.body is None or f.is_lambda or f.dependent or \
                 any(f.qualname.endswith(n_) for n_ in descs):
             continue
-        chk = _depth_checks_own(f)
+        chk = _depth_checks(f)
         if not chk:
+            continue
+        # a recursion: the function (or one of its lambdas) calls the function again; a helper
+        # that only holds the comparison is judged where it is used
+        fam_ = [f] + list(prog.lambdas_of(f))
+        if not any(callee_func(prog, g_, c_) is not None and callee_func(prog, g_, c_).qualname == f.qualname
+                   for g_ in fam_ if g_.body is not None for c_ in calls_in(g_.body)):
             continue
         others += 1
         n_, op_, lhs_ = chk[0]
